@@ -282,7 +282,7 @@ def rnd_desc(rng):
                 lm[__import__("json").dumps(comps[0]) if all(isinstance(p, (str, int)) for p in comps[0]) else '["M", 2]'] = {
                     k: "t" * rng.choice([1, 23, 24, 255, 256]) for k in rng.sample(["suit-text-vendor-name", "suit-text-model-name", "suit-text-vendor-domain", "suit-text-model-info", "suit-text-component-description", "suit-text-component-version"], rng.randint(1, 4))}
             for k in rng.sample(["suit-text-manifest-description", "suit-text-update-description", "suit-text-manifest-json-source", "suit-text-manifest-yaml-source"], rng.randint(0, 3)):
-                lm[k] = "opis ż" * rng.choice([1, 10])
+                lm[k] = "opis ż" * rng.choice([1, 10]) + rng.choice(["", "", "\u0085nel", "\u2028ls\u2029ps", "\x0bvt\x0cff"])
             e["suit-text"] = {rng.choice(["en", "pl-PL"]): lm}
     rng.shuffle(opt)
     mf.update(opt)
